@@ -5,15 +5,35 @@ From Coq Require Import String.
 From AV Require Import Lib.Base Lib.V Gen.Consts H1.Chunked H1.PayloadDec H1.Framing H1.Codec H1.SimpleHead.
 Open Scope N_scope.
 
-Inductive piece := Lit (b : bytes) | Rep (n : N) (b : N).
+(* Byte strings travel as hexadecimal numerals with a leading sentinel byte 01
+   ([LitN 0x01474554] = "GET"): Coq elaborates a numeral far faster than a string literal. *)
+Fixpoint bytes_of_pos (p : positive) (cur w : N) (k : nat) (acc : bytes) : bytes :=
+  let next (bit : N) (q : positive) :=
+    let cur' := cur + bit * w in
+    match k with
+    | 7%nat => bytes_of_pos q 0 1 0%nat (cur' :: acc)
+    | _ => bytes_of_pos q cur' (2 * w) (S k) acc
+    end in
+  match p with
+  | xH => acc
+  | xO q => next 0 q
+  | xI q => next 1 q
+  end.
+Definition bytes_of_num (n : N) : bytes :=
+  match n with Npos p => bytes_of_pos p 0 1 0%nat [] | N0 => [] end.
+Definition num_of_bytes (l : bytes) : N := fold_left (fun a b => a * 256 + b) l 1.
+
+Inductive piece := Lit (b : bytes) | LitN (n : N) | Rep (n : N) (b : N).
 Inductive segm := Cuts (l : list N) | Every (k : N).
-(* stream, segmentation, whether the dispatcher-level observables (runner B) are part of the case *)
-Inductive case := Case (ps : list piece) (sg : segm) (with_b : bool).
+(* stream, segmentation, dispatcher-level observables (runner B): 0 = not part of the case,
+   1 = compared, 2 = compared without the number of dispatched requests (cases of class F25) *)
+Inductive case := Case (ps : list piece) (sg : segm) (with_b : N).
 
 Fixpoint stream (ps : list piece) : bytes :=
   match ps with
   | [] => []
   | Lit b :: r => b ++ stream r
+  | LitN n :: r => bytes_of_num n ++ stream r
   | Rep n b :: r => repeat b (N.to_nat n) ++ stream r
   end.
 
@@ -56,12 +76,18 @@ Fixpoint ins_sorted (e : header) (l : list header) : list header :=
 Definition sort_headers (hs : list header) : list header :=
   fold_right ins_sorted [] (map (fun h : header => (lower (fst h), snd h)) hs).
 
-Definition VVersion (v : version) : V := VN (match v with V10 => 0 | V11 => 1 end).
+(* fixed-width big-endian rendering of a number < 2^64 *)
+Definition be8 (n : N) : bytes :=
+  map (fun i => (n / 2 ^ (8 * i)) mod 256) [7; 6; 5; 4; 3; 2; 1; 0].
+(* a field: short strings verbatim behind their length, long ones as (length, checksum) *)
+Definition field (l : bytes) : bytes :=
+  if (length l <=? 64)%nat then 0 :: lenN l :: l
+  else let ac := cksum l in 1 :: be8 (lenN l) ++ be8 (fst ac) ++ be8 (snd ac).
+Definition ser_head (r : req) : bytes :=
+  field (r_method r) ++ field (r_target r) ++ [match r_version r with V10 => 0 | V11 => 1 end] ++
+  concat (map (fun h : header => field (fst h) ++ field (snd h)) (sort_headers (r_headers r))).
 Definition VMessage (m : message) : V :=
-  let r := m_req m in
-  VT "m" [VBytesC (r_method r); VBytesC (r_target r); VVersion (r_version r);
-          VL (map (fun h : header => VT "h" [VBytesC (fst h); VBytesC (snd h)]) (sort_headers (r_headers r)));
-          VBytesC (m_body m); VBool (m_done m)].
+  VT "m" [VN (num_of_bytes (ser_head (m_req m))); VN (num_of_bytes (field (m_body m))); VBool (m_done m)].
 Definition VErr (e : perr) : V :=
   VT (match e with EHeader => "header" | ETooLarge => "too_large" | EIo => "io" | EOther => "other" end) [].
 (* Codec::message_type() *)
@@ -72,12 +98,13 @@ Definition VMsgType (c : codec) : V :=
    statuses of the responses it generates itself, number of requests handed to the service
    (none = not determined: an I/O-class error drops the connection with requests possibly still
    queued), connection closed after the error *)
-Definition VDisp (o : outcome) : V :=
+Definition VDisp (count : bool) (o : outcome) : V :=
+  let n ms := VOpt VNat (if count then Some (length ms) else None) in
   match o with
-  | ONeedMore _ _ ms => VT "b" [VL []; VOpt VNat (Some (length ms)); VN 2]
+  | ONeedMore _ _ ms => VT "b" [VL []; n ms; VN 2]
   | OError EIo ms => VT "b" [VL []; VOpt VNat None; VN 1]
-  | OError ETooLarge ms => VT "b" [VL [VN 431]; VOpt VNat (Some (length ms)); VN 1]
-  | OError _ ms => VT "b" [VL [VN 400]; VOpt VNat (Some (length ms)); VN 1]
+  | OError ETooLarge ms => VT "b" [VL [VN 431]; n ms; VN 1]
+  | OError _ ms => VT "b" [VL [VN 400]; n ms; VN 1]
   | _ => VT "b" []
   end.
 
@@ -96,5 +123,5 @@ Definition run_C01 (c : case) : V :=
   match c with
   | Case ps sg with_b =>
       let o := model_feed (segments sg (stream ps)) in
-      VT "c01" [VOutcome o; if with_b then VDisp o else VT "nob" []]
+      VT "c01" [VOutcome o; if with_b =? 0 then VT "nob" [] else VDisp (with_b =? 1) o]
   end.
